@@ -42,3 +42,7 @@ def worker_env(stripe):
 
 # dimensions added in seeded rounds 6 and 7
 PROBES = list(PROBES) + ["extreme-aspect-ratio:sim", "extreme-aspect-ratio:compiled"]
+
+# dimensions added in seeded round 9
+RULE = RULE + (" Round 9: the virtual-thread run models numba ARRAY reductions (`arr += x` on an array bound outside the prange: private per-thread copies added at the join) and fails "
+               "when a floating-point one is fed by more than one thread; every array a kernel allocates is tracked as an object of its own.")
